@@ -8,6 +8,7 @@ CONSTANTS
   Limits = {10}
   MaxDepth = 0
   EmitCases = FALSE
+  Hows = {"respond", "reset", "clientClose", "serverClose"}
   Dev = {}
   MaxSilent = 12
 INIT TInit
